@@ -932,7 +932,113 @@ def selftest():
     assert _ascii_lower("No Such FILE K") == "no such file K"
 
 
+# ------------------------------------------------------------------------------------------------
+# command parsers through the framework (a spec that yields several command outputs)
+
+_FW_COUNTER = [0]
+
+
+def check_framework(case):
+    """A multi-output spec hands a command parser several outputs, some of them error messages: the
+    content error of each of those is raised and accounted for, no object is made from it, every other
+    output is parsed (or, with continue_on_error=False, the parser yields nothing at all)."""
+    import sys
+    import types
+    from insights.core import dr, CommandParser
+    from insights.core.context import Context
+    from insights.core.exceptions import ContentException
+    from insights.core.plugins import datasource, parser
+    _FW_COUNTER[0] += 1
+    uid = _FW_COUNTER[0]
+    modname = "vp_c14_fw"
+    mod = sys.modules.get(modname) or types.ModuleType(modname)
+    sys.modules[modname] = mod
+    outputs = case["outputs"]           # [{"lines": [...], "bad": bool}]
+    seen = []
+
+    def source(broker):
+        return [Context(content=list(o["lines"]), path="/usr/bin/cmd%d" % k) for k, o in enumerate(outputs)]
+    source.__name__ = source.__qualname__ = "src%d" % uid
+    source.__module__ = modname
+    setattr(mod, source.__name__, source)
+    ds = datasource(multi_output=True)(source)
+
+    class P(CommandParser):
+        def parse_content(self, content):
+            seen.append(list(content))
+            self.lines = list(content)
+    P.__name__ = P.__qualname__ = "P%d" % uid
+    P.__module__ = modname
+    setattr(mod, P.__name__, P)
+    comp = parser(ds, continue_on_error=bool(case["coe"]))(P)
+    try:
+        broker = dr.Broker()
+        dr.run(dr.get_dependency_graph(comp), broker=broker)
+        good = [list(o["lines"]) for o in outputs if not o["bad"]]
+        nbad = sum(1 for o in outputs if o["bad"])
+        recorded = [e for e in broker.exceptions.get(comp, []) if isinstance(e, ContentException)]
+        if case["coe"]:
+            if len(recorded) != nbad:
+                raise Violation("%d of the outputs are error messages but %d content errors are accounted for "
+                                "against the parser" % (nbad, len(recorded)), outputs=outputs,
+                                recorded=[str(e) for e in broker.exceptions.get(comp, [])])
+            objs = broker.get(comp) or []
+            got = [getattr(o, "lines", None) for o in objs]
+            if got != good:
+                raise Violation("the parser objects were made from %r, the outputs that are not error messages are %r"
+                                % (got, good), outputs=outputs)
+            if seen != good:
+                raise Violation("parse_content received %r, expected exactly the outputs that are not error "
+                                "messages: %r" % (seen, good))
+        else:
+            first_bad = next((k for k, o in enumerate(outputs) if o["bad"]), None)
+            if first_bad is None:
+                if [getattr(o, "lines", None) for o in (broker.get(comp) or [])] != good:
+                    raise Violation("all outputs are ordinary but the parser did not yield one object per output")
+            else:
+                if comp in broker:
+                    raise Violation("continue_on_error=False: an output is an error message but the parser still "
+                                    "yielded objects", outputs=outputs)
+                if not recorded:
+                    raise Violation("continue_on_error=False: the content error of the error-message output is "
+                                    "accounted for nowhere", outputs=outputs,
+                                    recorded=[repr(e) for e in broker.exceptions.get(comp, [])])
+        return {"nontrivial": 0 < nbad < len(outputs), "labels": ["coe=%s" % bool(case["coe"]), "bad=%d" % min(nbad, 3),
+                                                                "outputs=%d" % len(outputs)]}
+    finally:
+        for c in (ds, comp):
+            for reg in (dr.DELEGATES, dr.DEPENDENCIES, dr.DEPENDENTS, dr.MODULE_NAMES, dr.BASE_MODULE_NAMES, dr.ENABLED,
+                        dr.IGNORE):
+                reg.pop(c, None)
+            for grp in list(dr.COMPONENTS.keys()):
+                dr.COMPONENTS[grp].pop(c, None)
+            for s_ in dr.COMPONENTS_BY_TYPE.values():
+                s_.discard(c)
+        for n in (source.__name__, P.__name__):
+            if hasattr(mod, n):
+                delattr(mod, n)
+
+
+@st.composite
+def _fw_case(draw):
+    outs = []
+    for _ in range(draw(st.integers(1, 4))):
+        if draw(st.booleans()):
+            phrase = draw(st.sampled_from(DOC_SINGLE))
+            phrase = draw(st.sampled_from([phrase, phrase.upper(), phrase.title()]))
+            outs.append({"lines": ["bash: thing: %s zq" % phrase], "bad": True})
+        else:
+            outs.append({"lines": draw(st.lists(st.sampled_from(["ok zq line", "value 1", "", "another zq"]), min_size=1,
+                                                max_size=3)), "bad": False})
+    return {"outputs": outs, "coe": draw(st.booleans())}
+
+
+def strat_framework(tier):
+    return _fw_case()
+
+
 SUBS = [
+    Sub("framework", check_framework, strategy=strat_framework, quick=300, thorough=3000, workers_quick=2),
     Sub("command", check_command, strategy=strat_command, quick=1000, thorough=10000, workers_quick=2),
     Sub("json", check_json, strategy=strat_json, quick=900, thorough=10000, workers_quick=2),
     Sub("yaml", check_yaml, strategy=strat_yaml, quick=600, thorough=8000, workers_quick=2),
